@@ -59,9 +59,8 @@ func loadControls(verif, id string) []control {
 			}
 		}
 	}
-	// behaviour-preserving refactors written by independent agents (refactors/<ID>-r<k>/): the checks of
-	// the property they were written for - and of every property listed in also_silent_for - must stay
-	// silent on them
+	// behaviour-preserving refactors written by independent agents (refactors/<ID>-r<k>/): the check of
+	// the property they were written for must stay silent on them
 	rdirs, _ := filepath.Glob(filepath.Join(verif, "refactors", "*", "meta.json"))
 	sort.Strings(rdirs)
 	for _, m := range rdirs {
@@ -77,10 +76,15 @@ func loadControls(verif, id string) []control {
 		if json.Unmarshal(b, &meta) != nil || meta.Status == "rejected" {
 			continue
 		}
+		// also_silent_for lists the neighbouring checks (same packages) the refactor was run against when it was
+		// ingested (bin/refactor-run) and in full sweeps (VERIF_CROSS=1); the regular thorough tier replays a
+		// refactor against the check of its own property only, which keeps the tier within minutes
 		applies := meta.Property == id
-		for _, a := range meta.Also {
-			if a == id {
-				applies = true
+		if os.Getenv("VERIF_CROSS") != "" {
+			for _, a := range meta.Also {
+				if a == id {
+					applies = true
+				}
 			}
 		}
 		if !applies {
